@@ -322,11 +322,10 @@ class Exec:
                 env[name] = kwargs.pop(name)
             elif default is not None:
                 env[name] = ("__default__", default)
-        if kwargs:
-            if kwarg is not None:
-                env[kwarg.arg] = dict(kwargs)
-            else:
-                raise Unsupported("unexpected keyword %s for %s" % (list(kwargs), finfo.qualname))
+        if kwarg is not None:
+            env[kwarg.arg] = dict(kwargs)
+        elif kwargs:
+            raise Unsupported("unexpected keyword %s for %s" % (list(kwargs), finfo.qualname))
         # evaluate defaults in the defining module's scope
         for k, v in list(env.items()):
             if isinstance(v, tuple) and len(v) == 2 and v[0] == "__default__":
@@ -585,7 +584,8 @@ class Exec:
                     raise Unsupported("setter decorator on non-property @%d" % st.lineno)
                 val = PropObj(fget=base.fget, fset=val)
             else:
-                raise Unsupported("decorator @%d" % st.lineno)
+                # general decorator expression on a nested def (e.g. @wraps(func)): call it on the closure
+                val = self.call(self.eval(d), [val], {}, st.lineno)
         self.set_env(fr.env, st.name, val)
 
     def st_For(self, st):
@@ -1163,6 +1163,18 @@ class Exec:
                 return sym == "!="
             eq = band(*[self.compare_op(ast.Eq(), x, y) for x, y in zip(a, b)])
             return eq if sym == "==" else bnot(eq)
+        if isinstance(a, dict) and isinstance(b, dict) and sym in ("==", "!="):
+            self.resolve_opt(a)
+            self.resolve_opt(b)
+            if set(a.keys()) != set(b.keys()):
+                return sym == "!="
+            eq = band(*[self.compare_op(ast.Eq(), a[k_], b[k_]) for k_ in a.keys()])
+            return eq if sym == "==" else bnot(eq)
+        if isinstance(a, Obj) and sym in ("==", "!=") and hasattr(a.cls, "lookup") and a is not b:
+            r = a.cls.lookup("__eq__")
+            if r is not None and r[0] == "method":
+                eq = self.truth(self.call_function(r[2], [b], {}, bound=a, line=line))
+                return eq if sym == "==" else bnot(eq)
         if (V.sort_of(a) is None and a is not None) or (V.sort_of(b) is None and b is not None):
             if sym in ("==", "!="):
                 if isinstance(a, Obj) or isinstance(b, Obj) or isinstance(a, ClassRef) or isinstance(b, ClassRef):
@@ -1265,7 +1277,7 @@ class Exec:
             self.used_models.add(f.name)
             return f.fn(self, args, kwargs, line)
         if isinstance(f, FuncRef):
-            return self.call_function(f.info, args, kwargs, bound=f.bound, line=line)
+            return self.call_function(f.info, args, kwargs, bound=f.bound, line=line, raw=getattr(f, "raw", False))
         if isinstance(f, Closure):
             env = self.bind_args(f.info, args, kwargs)
             env["__closure_parent__"] = f.env
@@ -1288,7 +1300,7 @@ class Exec:
         f = self.getattr(obj, name, line)
         return self.call(f, args, kwargs, line)
 
-    def call_function(self, finfo, args, kwargs, bound=None, line=None):
+    def call_function(self, finfo, args, kwargs, bound=None, line=None, raw=False):
         c = self.registry.contract_for(finfo.qualname)
         if c is not None and c.dispatch is not None:
             env0 = self.bind_args(finfo, args, dict(kwargs), bound)
@@ -1305,6 +1317,20 @@ class Exec:
             dn = d.id if isinstance(d, ast.Name) else d.attr if isinstance(d, ast.Attribute) else \
                 (d.func.id if isinstance(d, ast.Call) and isinstance(d.func, ast.Name) else
                  getattr(getattr(d, "func", None), "attr", "?"))
+            if dn in getattr(self.registry.models, "executable_decorators", ()) and not raw:
+                # a wrapper defined in the repository whose real code is executed around the undecorated function
+                # (the decorator function is called with the raw function, the returned closure with the arguments)
+                fr = Frame(finfo, {}, finfo.module)
+                self.frames.append(fr)
+                try:
+                    deco = self.eval(d)
+                finally:
+                    self.frames.pop()
+                wrapped = self.call(deco, [FuncRef(finfo, raw=True)], {}, line)
+                full = ([bound] if bound is not None else []) + list(args)
+                return self.call(wrapped, full, dict(kwargs), line)
+            if dn in getattr(self.registry.models, "executable_decorators", ()) and raw:
+                continue
             if dn not in ("staticmethod", "classmethod", "property", "deprecated"):
                 # a decorator may replace the body (runtime dispatch, caching, ...): never inline such a function
                 raise Unsupported("call of decorated function %s (@%s) without a contract @%s"
